@@ -287,6 +287,7 @@ int main()
 		{ client c; int tries = 0; while (!c.open() && tries++ < 4000) usleep(5000); c.closefd(); usleep(2000); }
 		std::string line;
 		while (std::getline(std::cin, line)) {
+			alarm(300); // watchdog against a hanging request
 			std::vector<std::string> v = split(line);
 			if (!((v.size() == 10 || v.size() == 11) && v[0] == "rq")) { std::cout << "BAD-CASE" << std::endl; continue; }
 			for (int i = 0; i < 200000 && g_live > 0; i++) usleep(100);   // previous request fully gone
